@@ -15,22 +15,27 @@ LEAN_MODULES = ['PybtexModel.Props.C10']
 DRV = ['C01', 'C10']     # the bibparse op of the C01 driver module, c10case of its own
 THEOREMS = {
     'C10_total': 'total: for every text, mode, wanted-set, macro table the reader model never runs out of fuel or takes an impossible branch (no error of kind internal reported or raised); when nothing is raised the whole text was read (no "@" left)',
-    'C10_total_wellnested': 'total: with well nested initial macro values (the month names are) the BibTeXError of Person() (nesting > 100) is never reported or raised, so continue mode raises nothing at all: values read are balanced and at most 100 deep, every name piece is a segment of such a value',
+    'C10_total_wellnested': 'total: ONLY with well nested initial macro values (VOK; the month names are) the BibTeXError of Person() (nesting > 100) is never reported or raised, so continue mode raises nothing at all: values read are balanced and at most 100 deep, every name piece is a segment of such a value',
     'C10_located': 'located (bounds): every syntax error reported or raised carries a line number l with 1 <= l <= 1 + number of line breaks of the text',
-    'C10_located_exact': 'located (exact): the reader records with every problem the unread text at the moment it was handed to handle_error (the pos of error_context_info); for EVERY reported syntax error and for the one raised in strict mode: that text b is a suffix of the input, the line carried is 1 + line breaks of the input - line breaks of b (= 1 + line breaks of the consumed prefix unless the cut falls inside a CRLF), and for TokenRequired b is non-empty and starts with the offending non-white-space character',
+    'C10_located_exact': "located (exact), about the MODEL's ghost field errAt (unread text recorded by the model's handle_error with every problem; errAt = the pos of pybtex's error_context_info is checked by the correspondence only): for EVERY reported syntax error and the one raised in strict mode that text b is a suffix of the input, the line is 1 + line breaks of the input - line breaks of b (= 1 + line breaks of the consumed prefix unless the cut falls inside a CRLF); for TokenRequired b starts with the offending non-white-space character",
     'C10_located_data_neg': 'located fails for the data errors: DuplicateField, repeated bibliography entry and InvalidNameString are reported with no line at all (kernel-evaluated witness) - known finding C10-data-errors-not-located',
     'C10_modes': 'modes: continue mode raises nothing (but the BibTeXError of Person()); strict mode ends exactly like continue mode when nothing was reported, else raises the first reported problem',
     'C10_prefix_stable': 'confined_before: entries, preamble and problems present after the first k commands are initial segments of those of the complete run (only ever appended)',
-    'C10_confined_before_text': 'confined_before (textual): for every well-formed document rendering (C01: WFD d L, repeated keys / field names allowed) followed by ANY text x, the entries, preamble items and problems of the document are initial segments of what is read from render d L ++ x in continue mode; in strict mode (document without problems) its entries and preamble are an initial segment of the database the reader stops with, also when it raises on x',
+    'C10_confined_before_text': "confined_before (textual, SYNTACTIC premise), ONLY for wanted = none with the default month macros and person roles (rests on the C01 printer/parser proof stated for that setting; every setting, operational premise: C10_confined_before_any): for every well-formed document rendering (WFD d L) followed by ANY text x, the document's entries, preamble items and problems are initial segments of what is read from render d L ++ x in continue mode; in strict mode (document without problems) of the database the reader stops with",
+    'C10_confined_before_any': 'confined_before (textual), EVERY mode / wanted-set / macro table / person-field list and ANY text a (no document structure needed): if reading a alone raises nothing and reports no PrematureEOF (its last command is not cut off by the end of the text), then for EVERY continuation x the entries, preamble items and problems read from a are initial segments of those read from a ++ x',
+    'C10_confined_before_any_nonvacuous': 'non-vacuity in a NON-default setting (wanted-set {k, q}, one macro foo, no person fields): a text with @string, a wanted entry with a reported field, an unwanted entry and a @preamble satisfies the hypotheses; evaluated: its entry, preamble and report come first when a repeated key and a cut-off entry follow',
+    'C10_confined_before_any_neg': 'the PrematureEOF hypothesis of C10_confined_before_any cannot be dropped: "@a{k, t = {x y" alone leaves the partial entry k without field, followed by "}}" the entry k has t = x y (kernel-evaluated)',
     'C10_confined_step': 'confined: every command, malformed or not, appends at most one entry and one preamble item to what was read before it and changes nothing else in these lists (a malformed entry leaves at most one partial entry)',
     'C10_scan_local': 'confined_after/locality: every scanner and parse function of LowLevelParser (get_token, required, parse_value_part with nested strings, parse_value, parse_field, parse_entry_body, parse_string_body) is local: if its run on text a did not hit the end of the text (no PrematureEOF) and stopped before it (a character left unread, or a syntax error), then on a ++ c, for every c, it returns the same value / same located error / same state changes and leaves c unread',
-    'C10_round_local': 'confined_after/locality: one whole round of the command loop (skip to "@", parse_command with its handle_error, process_entry/process_preamble, handle_error of the loop) on text a that finds its "@" and neither reports nor raises PrematureEOF has, on a ++ c for EVERY c, the same outcome (same entry/preamble item appended, same problems with the same lines, same macro table) with c left unread',
+    'C10_round_local': 'confined_after/locality: one whole round of the command loop on text a (line counter >= 1) that finds its "@", reports no PrematureEOF and - if an error leaves the reader (strict mode) - raises a non-PrematureEOF error IN FRONT OF AN UNREAD CHARACTER (unread rest non-empty) has, on a ++ c for EVERY c, the same outcome (same entry/preamble item appended, same problems with the same lines, same macro table) with c left unread',
     'C10_round_local_neg': 'confined_after/locality: "the round stopped with a non-empty unread rest" alone is not enough: PrematureEOF inside a string is raised without consuming the scanned text (kernel-evaluated witness "@a{k, t = {x y" vs "@a{k, t = {x y}}"; pybtex does the same)',
     'C10_resync': 'confined_after/resynchronisation: unread text without "@" in front of a continuation c is skipped - the next round behaves exactly as on c alone, the line counter advanced by the line breaks skipped; if c has no "@" either the loop stops',
     'C10_round_independent': 'confined_after/independence: a round does not depend on the entries, preamble items and problems collected before, nor on the absolute line number (lines of new problems shift along), except for the repeated-key check of add_entry: from a state with other problems/preamble items in front and entries inserted the round has the same outcome unless it reports a repeated entry for a key (compared by str.lower(), keyFold) of an inserted entry',
-    'C10_confined_after': 'confined_after (positive, all states/texts): if the round on bad ALONE goes on, reports no PrematureEOF and leaves unread text without "@", then in the run on bad ++ post everything read from post - entries, preamble items, problems (lines shifted by the line breaks before post), raised error - is exactly what the run on post alone produces, started with the macro table / wanted-set / unnamed counter as bad left them; exceptions: (a) the at most one partial entry of bad, (b) hypothesis: no later repeated-entry report for that entry\'s key',
+    'C10_confined_after': 'confined_after (positive, all states/texts): if the round on bad ALONE goes on (strict mode: only when it reports nothing), reports no PrematureEOF and leaves no "@" unread, then in the run on bad ++ post everything read from post - entries, preamble, problems (lines shifted), raised error - is exactly what the run on post alone produces from the macro table / wanted-set / unnamed counter bad left; exceptions: (a) bad\'s at most one partial entry, (b) hypothesis: no later repeated-entry report for its key',
     'C10_confined_after_partial': 'confined_after (positive): if moreover the round on bad left macro table, wanted-set and unnamed-entry counter unchanged, the run on post alone is the plain run from the same state: a self-contained malformed entry alters nothing read after it (apart from its own partial entry and later entries reusing its key)',
-    'C10_confined_after_head': 'confined_after (positive, whole texts): for a malformed command at the head of the text that is self-contained in the sense of C10_confined_after_partial, parse_string(bad ++ post) yields what the round on bad yielded followed by exactly what parse_string(post) yields (problem lines shifted by the line breaks of bad), in every mode / wanted-set / macro table',
+    'C10_confined_after_head': "confined_after (positive, whole texts), every wanted-set / macro table, but EFFECTIVELY CONTINUE MODE: hypothesis 'the loop goes on after the round on bad' fails in strict mode as soon as bad reports anything (strict stops there: C10_modes); for a head command self-contained as in C10_confined_after_partial, parse_string(bad ++ post) = the round on bad followed by exactly parse_string(post) (lines shifted), unless a later entry reuses the key of bad's partial entry",
+    'C10_confined_after_head_strict': 'STRICT-mode complement of the confinement-after theorems, every wanted-set / macro table: if the first round on bad ALONE stops the reader with a raised error e (not PrematureEOF, none reported, raised in front of an unread character), then parse_string(bad ++ post) stops in the same way for EVERY post: same error e and line, same database, problems, macro table, and all of post unread - nothing of post is looked at',
+    'C10_confined_after_head_strict_nonvacuous': 'non-vacuity: strict mode on "@misc{k, t = x y}": the round raises the undefined macro x (line 1) in front of " y}"; with "@misc{z, v = 2}" behind it the reader stops identically and the continuation is unread',
     'C10_confined_syntactic': 'confined_after (positive, SYNTACTIC premise): C10_confined_after_partial with both operational hypotheses about the text (no PrematureEOF, no "@" left unread) replaced by the decidable predicate SelfContained bad: exactly one "@", the first bracket behind it is "{" and that brace is closed within bad by brace counting - quotes need not be balanced (an unclosed quoted string runs into the brace: "unbalanced braces"); still assumed: the loop goes on after the round, bad hands on neither macros nor wanted-set nor unnamed counter, no later entry reuses the key of its partial entry',
     'C10_selfContained_round': 'confined_after/bridge: from any loop-top state, in either mode, the round on a SelfContained command reports no PrematureEOF and leaves no "@" unread; in continue mode the loop goes on after it unless Person() raises its nesting error',
     'C10_confined_syntactic_at': 'confined_after/bridge: what a round leaves unread is a suffix of the text behind the "@" it started at, so a command with exactly one "@" leaves no "@" unread (hat from syntax)',
@@ -523,35 +528,55 @@ def gen_cases(tier, rng, info):
     return cases
 
 
-LEVEL_TEXT = ('Machine-checked proofs (Lean 4) about the function-by-function model of LowLevelParser / Parser (Model/BibParse.lean) for EVERY text, '
-              'mode, wanted-set, initial macro table and person-field list: the fuel of every loop suffices and no impossible branch is taken, '
-              'so only pybtex error kinds occur and the text is read to its end (C10_total); with well nested initial macro values the nesting '
-              'error of Person() is unreachable (C10_total_wellnested); every syntax error, reported or raised, carries EXACTLY the line of the position at '
-              'which it was raised: the model records the unread text with every problem (the pos of error_context_info) and line = 1 + line breaks of the '
-              'text - line breaks of that unread suffix, for TokenRequired the suffix starts with the offending character (C10_located_exact; bounds: C10_located); '
-              'the data errors carry no line (C10_located_data_neg, recorded finding); strict reading = continue-mode reading cut at the first reported '
-              'problem, same database when there is none (C10_modes); what was read after k commands is only ever extended (C10_prefix_stable), by at most one '
-              'entry and one preamble item per command (C10_confined_step); TEXTUALLY: the entries / preamble / problems of a well-formed document rendering are an '
-              'initial segment of what is read from the rendering followed by ANY text (C10_confined_before_text, via the C01 printer/parser proof). Confinement AFTER a '
-              'malformed entry: "balanced braces and quotes" alone is refuted on kernel-evaluated witnesses: an "@" inside the entry (C10_confined_neg), a lone "@" '
-              '(C10_confined_lone_at_neg) and, generally, an "@" of the next command read as an identifier character (C10_confined_next_at_neg); all recorded findings. '
-              'The POSITIVE statement is proved for every loop-top state and all texts bad, post (Lemmas/BibLocal.lean): the reader is local (C10_scan_local, '
-              'C10_round_local, C10_round_local_neg), it resynchronises at the next "@" (C10_resync), a round depends on earlier entries only through the repeated-key '
-              'check (C10_round_independent); hence (C10_confined_after, _partial, _head) if the round on bad alone reports no PrematureEOF and leaves no "@" unread, '
-              'everything read from post in bad ++ post is exactly what is read from post alone, except for a later entry that reuses the key of the partial entry of '
-              'bad; the two hypotheses about the text follow from the syntactic premise SelfContained (C10_confined_syntactic, C10_selfContained_round, C10_confined_syntactic_at, _flat); '
-              'the unnamed counter and the wanted-set are genuinely handed on (C10_confined_after_unnamed_neg, C10_confined_after_wanted_neg). The driver '
-              'evaluates the hypotheses of C10_confined_after_partial for every generated (context, corruption) pair; the harness reports how many pairs the theorem '
-              'covers (histogram "theorem-covers:*") and checks its conclusion on the implementation.')
-LEVEL_NOTE = ('Trusted: Lean kernel; axioms propext/Classical.choice/Quot.sound at most; the hand-written model corresponds to pybtex only as far as '
-              'the differential check explores (every string of length <= 3/4 over a 17-symbol alphabet and longer ones behind "@" / an entry head, person fields over '
-              'every <= 3 name pieces, single-token corruptions of base and random documents, wanted_entries cases, random Unicode; capture and strict mode incl. the '
-              'positions of the errors). "Never an internal exception/hang" of CPython itself is sampled, not proved (a case without result within 10 s is a failing '
-              'input). The positive confinement-after theorem has operational hypotheses on the round on bad alone; the two about the TEXT (no PrematureEOF, no "@" '
-              'left unread) follow from the decidable syntactic predicate SelfContained (C10_confined_syntactic, C10_selfContained_round: exactly one "@", first bracket '
-              '"{", that brace closed by brace counting; parenthesised commands and commands without a body are excluded, cf. C10_confined_next_at_neg); still operational: '
-              'the loop goes on after the round (always in continue mode unless Person() raises) and bad hands on neither macros, wanted-set nor unnamed counter. The '
-              'driver evaluates all hypotheses and the syntactic premise per generated pair (histogram theorem-covers:* / syntactic-premise:*). The three error '
-              'modes of errors.report_error (captured / strict / warning) are one Boolean in the model; capture = non-strict is checked by the oracle only. With '
-              'wanted_entries the wanted-set is the ASCII-folding set model. A change that only adds or drops a report for an entry that is NOT wanted violates no '
-              'clause of this property: it shows as a correspondence break without failing input.')
+LEVEL_TEXT = ('Machine-checked proofs (Lean 4) about the function-by-function model of LowLevelParser / Parser (Model/BibParse.lean) for EVERY '
+              'text, mode, wanted-set, initial macro table and person-field list (exceptions, named below: C10_confined_before_text - default '
+              'setting only, its general counterpart is C10_confined_before_any; the positive confinement-after theorems - effectively continue '
+              'mode, strict mode: C10_confined_after_head_strict): the fuel of every loop suffices and no impossible branch is taken, so only '
+              'pybtex error kinds occur and the text is read to its end (C10_total); with well nested initial macro values the nesting error of '
+              'Person() is unreachable (C10_total_wellnested); every syntax error, reported or raised, carries EXACTLY the line of the position '
+              'at which it was raised: the model records the unread text with every problem in a ghost field (meant to be the pos of '
+              'error_context_info; that correspondence is checked differentially, not proved) and line = 1 + line breaks of the text - line '
+              'breaks of that unread suffix, for TokenRequired the suffix starts with the offending character (C10_located_exact; bounds: '
+              'C10_located); the data errors carry no line (C10_located_data_neg, recorded finding); strict reading = continue-mode reading cut '
+              'at the first reported problem, same database when there is none (C10_modes); what was read after k commands is only ever extended '
+              '(C10_prefix_stable), by at most one entry and one preamble item per command (C10_confined_step); TEXTUALLY, for wanted = none with'
+              ' the default month macros and person roles ONLY: the entries / preamble / problems of a well-formed document rendering are an '
+              'initial segment of what is read from the rendering followed by ANY text (C10_confined_before_text, via the C01 printer/parser '
+              'proof, which is stated for that setting); for EVERY mode / wanted-set / macro table and ANY text a whose reading alone raises '
+              'nothing and reports no PrematureEOF, what is read from a is an initial segment of what is read from a ++ x for every x '
+              '(C10_confined_before_any, by induction over the rounds with C10_round_local; the PrematureEOF hypothesis cannot be dropped: _neg).'
+              ' Confinement AFTER a malformed entry: "balanced braces and quotes" alone is refuted on kernel-evaluated witnesses: an "@" inside '
+              'the entry (C10_confined_neg), a lone "@" (C10_confined_lone_at_neg) and, generally, an "@" of the next command read as an '
+              'identifier character (C10_confined_next_at_neg); all recorded findings. The POSITIVE statement is proved for every loop-top state '
+              'and all texts bad, post (Lemmas/BibLocal.lean): the reader is local (C10_scan_local, C10_round_local, C10_round_local_neg), it '
+              'resynchronises at the next "@" (C10_resync), a round depends on earlier entries only through the repeated-key check '
+              '(C10_round_independent); hence (C10_confined_after, _partial, _head) if the loop goes on after the round on bad alone (in strict '
+              'mode this holds only when bad reports nothing, so for a genuinely malformed bad these are continue-mode statements; strict mode '
+              'stops at the first report, C10_modes; precisely, when the round on bad raises e in strict mode, bad ++ post raises the same e with'
+              ' the same database and post unread: C10_confined_after_head_strict), that round reports no PrematureEOF and leaves no "@" unread, '
+              'everything read from post in bad ++ post is exactly what is read from post alone, except for a later entry that reuses the key of '
+              'the partial entry of bad; the two hypotheses about the text follow from the syntactic premise SelfContained '
+              '(C10_confined_syntactic, C10_selfContained_round, C10_confined_syntactic_at, _flat); the unnamed counter and the wanted-set are '
+              'genuinely handed on (C10_confined_after_unnamed_neg, C10_confined_after_wanted_neg). The driver evaluates the hypotheses of '
+              'C10_confined_after_partial for every generated (context, corruption) pair; the harness reports how many pairs the theorem covers '
+              '(histogram "theorem-covers:*") and checks its conclusion on the implementation.')
+LEVEL_NOTE = ('Trusted: Lean kernel; axioms propext/Classical.choice/Quot.sound at most; the hand-written model corresponds to pybtex only as far'
+              ' as the differential check explores (every string of length <= 3/4 over a 17-symbol alphabet and longer ones behind "@" / an entry'
+              ' head, person fields over every <= 3 name pieces, single-token corruptions of base and random documents, wanted_entries cases, '
+              'random Unicode; capture and strict mode incl. the positions of the errors). C10_confined_before_text (syntactic premise WFD) is '
+              'NOT general in the wanted-set and the macro table (wanted = none, month macros, default roles only; generalising it would need the'
+              ' C01 round trip for arbitrary settings); the general statement C10_confined_before_any has an OPERATIONAL premise instead (the run'
+              ' on the prefix alone raises nothing and reports no PrematureEOF). C10_round_local additionally requires that an error leaving the '
+              "reader is raised in front of an unread character. C10_located_exact is about the model's ghost errAt; errAt = pybtex's pos is "
+              'differential only. "Never an internal exception/hang" of CPython itself is sampled, not proved (a case without result within 10 s '
+              'is a failing input). The positive confinement-after theorem has operational hypotheses on the round on bad alone; the two about '
+              'the TEXT (no PrematureEOF, no "@" left unread) follow from the decidable syntactic predicate SelfContained '
+              '(C10_confined_syntactic, C10_selfContained_round: exactly one "@", first bracket "{", that brace closed by brace counting; '
+              'parenthesised commands and commands without a body are excluded, cf. C10_confined_next_at_neg); still operational: the loop goes '
+              'on after the round (always in continue mode unless Person() raises; in strict mode NEVER when bad reports a problem - then '
+              "C10_confined_after_head_strict applies: the run stops at bad's error, post unread) and bad hands on neither macros, wanted-set nor"
+              ' unnamed counter. The driver evaluates all hypotheses and the syntactic premise per generated pair (histogram theorem-covers:* / '
+              'syntactic-premise:*). The three error modes of errors.report_error (captured / strict / warning) are one Boolean in the model; '
+              'capture = non-strict is checked by the oracle only. With wanted_entries the wanted-set is the ASCII-folding set model. A change '
+              'that only adds or drops a report for an entry that is NOT wanted violates no clause of this property: it shows as a correspondence'
+              ' break without failing input.')
